@@ -1,0 +1,23 @@
+//go:build verif
+
+// Contracts for the gvc verifier (see /verif/DESIGN.md). Comment-only file: it adds no code.
+package common
+
+//@ global bigZERO != nil && val(bigZERO) == 0 && bigONE != nil && val(bigONE) == 1 && bigTWO != nil && val(bigTWO) == 2 && bigTHREE != nil && val(bigTHREE) == 3
+//@ global bigFOUR != nil && val(bigFOUR) == 4 && bigFIVE != nil && val(bigFIVE) == 5 && bigEIGHT != nil && val(bigEIGHT) == 8
+
+//@ func ModPow
+//@   property C19 C01 C08
+//@   requires x != nil && y != nil && m != nil && val(m) != 0
+//@   ensures ok: err == nil ==> result0 != nil && fresh(result0) && 0 <= val(result0) && val(result0) < abs(val(m))
+//@   ensures pos: val(y) >= 0 ==> err == nil && val(result0) == pow(val(x), val(y), abs(val(m)))
+//@   ensures neg: val(y) < 0 && err == nil ==> hasinv(val(x), abs(val(m))) && val(result0) == pow(inv(val(x), abs(val(m))), 0 - val(y), abs(val(m)))
+//@   ensures noinv: val(y) < 0 && !hasinv(val(x), abs(val(m))) ==> err != nil
+//@   ensures fail: err != nil ==> result0 == nil
+//@   modifies nothing
+//@   mustfail canary: err != nil
+
+//@ func IntHashSha256
+//@   property C15 C01 C08
+//@   ensures value: result != nil && fresh(result) && val(result) == os2ip(sha256(bytes(input))) && val(result) >= 0
+//@   modifies nothing
